@@ -101,6 +101,58 @@ func (e *Engine) intrinsic(st *State, fn *ssa.Function, name string, args []Valu
 		case "zzTimeNs":
 			ns := args[0].(*Term)
 			return &TimeV{ns: Add(SExt(ns, 128), BVConstBig(unixEpochNs, 128))}, true, st
+		case "zzFieldInt", "zzSetFieldInt":
+			iv := args[0].(*IfaceV)
+			if len(iv.alts) != 1 || iv.alts[0].typ == nil {
+				panic(unsupported("%s needs a definite pointer", short))
+			}
+			pt, ok := iv.alts[0].typ.Underlying().(*types.Pointer)
+			if !ok {
+				panic(unsupported("%s needs a pointer to struct", short))
+			}
+			stt, ok := pt.Elem().Underlying().(*types.Struct)
+			if !ok {
+				panic(unsupported("%s needs a pointer to struct", short))
+			}
+			fname := concStr(args[1])
+			fi := -1
+			for i := 0; i < stt.NumFields(); i++ {
+				if stt.Field(i).Name() == fname {
+					fi = i
+				}
+			}
+			if fi < 0 {
+				panic(unsupported("%s: no field %s in %v", short, fname, pt.Elem()))
+			}
+			ft := stt.Field(fi).Type()
+			p := iv.alts[0].v.(*PtrV)
+			fp := &PtrV{}
+			for _, a := range p.alts {
+				fp.alts = append(fp.alts, PtrAlt{a.g, a.obj, a.off + fieldOffset(stt, fi)})
+			}
+			fs, ok := sortOf(ft)
+			if !ok || (fs.K != KBV && fs.K != KBool) {
+				panic(unsupported("%s: field %s is not an integer/bool", short, fname))
+			}
+			if short == "zzFieldInt" {
+				v := e.load(st, fp, ft, site).(*Term)
+				if fs.K == KBool {
+					return Ite(v, BVConst(1, 64), BVConst(0, 64)), true, st
+				}
+				if isSigned(ft) {
+					return SExt(v, 64), true, st
+				}
+				return ZExt(v, 64), true, st
+			}
+			v := args[2].(*Term)
+			var nv Value
+			if fs.K == KBool {
+				nv = Not(Eq(v, BVConst(0, 64)))
+			} else {
+				nv = Extract(v, fs.W-1, 0)
+			}
+			e.store(st, fp, ft, nv, site)
+			return nil, true, st
 		case "zzSymbolic":
 			return TTrue, true, st
 		case "zzStrID":
